@@ -1,7 +1,16 @@
-//! Type equality under binders (C01 / C03): pairs of types with nested `forall` / `exists`
-//! binders, related by renaming or by small mutations, put where the checker must compare them.
-//! The Lean mirror of `lub.rs`'s level discipline answers `equal` / `different`; the oracle column
-//! is alpha-equivalence computed here by translation to de Bruijn indices.
+//! Type equality under binders and of structural declarations (C01 / C03): pairs of types with
+//! nested `forall` / `exists` binders and inline `data ... end` / `codata ... end` declarations,
+//! related by renaming or by small mutations, put where the checker must compare them.
+//! The Lean mirror of `lub.rs` (level discipline, by-name comparison of arms) answers `equal` /
+//! `different`; the oracle column is alpha-equivalence up to the order of arms, computed here by
+//! translation to de Bruijn indices with the arms of every declaration sorted by name.
+//!
+//! Streams: (1) binders only (the original stream, unchanged case by case); (2) declarations inside
+//! the compared types, printed inline or through `let` aliases (`def` seals a declaration, which is
+//! then compared by identity and never reaches the structural arms of `lub_inner`); (3) declarations
+//! that repeat a constructor / destructor name (outside the model's `WF`): the mirror is still
+//! compared line by line, the oracle is that an equality judgement is reflexive and symmetric, and
+//! two fixed programs are run.
 use crate::common::{Opts, Rng, Sink, n_threads, par_map};
 use crate::pipeline::{self, Verdict};
 use zydeco_session::CompilerSession;
@@ -18,11 +27,23 @@ pub enum Ty {
     Arr(Box<Ty>, Box<Ty>),
     All(u8, u32, Box<Ty>),
     Ex(u8, u32, Box<Ty>),
+    /// `data | +K : value type | ... end`, arms in declaration order, names index a small pool
+    Data(Vec<(u8, Ty)>),
+    /// `codata | .d : computation type | ... end`
+    CoData(Vec<(u8, Ty)>),
 }
+
+/// constructor / destructor names come from one small pool, so that they collide across the
+/// declarations of a type and across the two compared types
+const POOL: u8 = 5;
 
 struct Gen<'a> {
     rng: &'a mut Rng,
     next: u32,
+    /// generate declarations (the original stream does not: its cases stay what they were)
+    decl: bool,
+    /// declarations still allowed in the type being generated
+    budget: u32,
 }
 
 impl Gen<'_> {
@@ -30,8 +51,30 @@ impl Gen<'_> {
         self.next += 1;
         self.next
     }
+    fn names(&mut self, n: usize) -> Vec<u8> {
+        let mut pool: Vec<u8> = (0..POOL).collect();
+        let mut out = Vec::new();
+        for _ in 0..n {
+            let at = self.rng.below(pool.len() as u64) as usize;
+            out.push(pool.remove(at));
+        }
+        out
+    }
+    fn data(&mut self, depth: u32, ev: &mut Vec<u32>, ec: &mut Vec<u32>) -> Ty {
+        self.budget = self.budget.saturating_sub(1);
+        let n = 2 + self.rng.below(3) as usize;
+        let names = self.names(n);
+        Ty::Data(names.into_iter().map(|name| (name, self.vty(depth, ev, ec))).collect())
+    }
+    fn codata(&mut self, depth: u32, ev: &mut Vec<u32>, ec: &mut Vec<u32>) -> Ty {
+        self.budget = self.budget.saturating_sub(1);
+        let n = 2 + self.rng.below(3) as usize;
+        let names = self.names(n);
+        Ty::CoData(names.into_iter().map(|name| (name, self.cty(depth, ev, ec))).collect())
+    }
     fn vty(&mut self, depth: u32, ev: &mut Vec<u32>, ec: &mut Vec<u32>) -> Ty {
-        let roll = self.rng.below(if depth == 0 { 4 } else { 9 });
+        let top = if depth == 0 { 4 } else if self.decl && self.budget > 0 { 12 } else { 9 };
+        let roll = self.rng.below(top);
         match roll {
             | 0 | 1 if !ev.is_empty() => Ty::Var(*self.rng.pick(ev)),
             | 0 => Ty::Int,
@@ -47,17 +90,19 @@ impl Gen<'_> {
                 ev.pop();
                 Ty::Ex(0, x, Box::new(body))
             }
-            | _ => {
+            | 8 => {
                 let x = self.fresh();
                 ec.push(x);
                 let body = self.vty(depth - 1, ev, ec);
                 ec.pop();
                 Ty::Ex(1, x, Box::new(body))
             }
+            | _ => self.data(depth - 1, ev, ec),
         }
     }
     fn cty(&mut self, depth: u32, ev: &mut Vec<u32>, ec: &mut Vec<u32>) -> Ty {
-        let roll = self.rng.below(if depth == 0 { 2 } else { 8 });
+        let top = if depth == 0 { 2 } else if self.decl && self.budget > 0 { 11 } else { 8 };
+        let roll = self.rng.below(top);
         match roll {
             | 0 if !ec.is_empty() => Ty::Var(*self.rng.pick(ec)),
             | 0 | 1 => Ty::Ret(Box::new(self.vty(depth.saturating_sub(1), ev, ec))),
@@ -69,15 +114,20 @@ impl Gen<'_> {
                 ev.pop();
                 Ty::All(0, x, Box::new(body))
             }
-            | _ => {
+            | 7 => {
                 let x = self.fresh();
                 ec.push(x);
                 let body = self.cty(depth - 1, ev, ec);
                 ec.pop();
                 Ty::All(1, x, Box::new(body))
             }
+            | _ => self.codata(depth - 1, ev, ec),
         }
     }
+}
+
+fn map_arms(arms: &[(u8, Ty)], f: &mut dyn FnMut(&Ty) -> Ty) -> Vec<(u8, Ty)> {
+    arms.iter().map(|(n, t)| (*n, f(t))).collect()
 }
 
 /// every binder gets a new identity
@@ -98,6 +148,8 @@ fn rename(t: &Ty, map: &mut Vec<(u32, u32)>, next: &mut u32) -> Ty {
             map.pop();
             if matches!(t, Ty::All(..)) { Ty::All(*k, y, body) } else { Ty::Ex(*k, y, body) }
         }
+        | Ty::Data(arms) => Ty::Data(map_arms(arms, &mut |t| rename(t, map, next))),
+        | Ty::CoData(arms) => Ty::CoData(map_arms(arms, &mut |t| rename(t, map, next))),
     }
 }
 
@@ -120,6 +172,11 @@ fn occurrences(t: &Ty, scope: &mut Vec<(u8, u32)>, kind_of: &dyn Fn(u32, &[(u8, 
             occurrences(body, scope, kind_of, out);
             scope.pop();
         }
+        | Ty::Data(arms) | Ty::CoData(arms) => {
+            for (_, t) in arms {
+                occurrences(t, scope, kind_of, out);
+            }
+        }
     }
 }
 
@@ -138,6 +195,8 @@ fn replace_occurrence(t: &Ty, n: &mut isize, with: u32) -> Ty {
         | Ty::Ret(a) => Ty::Ret(b(a, n)),
         | Ty::All(k, x, body) => Ty::All(*k, *x, b(body, n)),
         | Ty::Ex(k, x, body) => Ty::Ex(*k, *x, b(body, n)),
+        | Ty::Data(arms) => Ty::Data(map_arms(arms, &mut |t| replace_occurrence(t, n, with))),
+        | Ty::CoData(arms) => Ty::CoData(map_arms(arms, &mut |t| replace_occurrence(t, n, with))),
     }
 }
 
@@ -159,6 +218,70 @@ fn swap_leaf(t: &Ty, n: &mut isize) -> Ty {
         | Ty::Ret(a) => Ty::Ret(b(a, n)),
         | Ty::All(k, x, body) => Ty::All(*k, *x, b(body, n)),
         | Ty::Ex(k, x, body) => Ty::Ex(*k, *x, b(body, n)),
+        | Ty::Data(arms) => Ty::Data(map_arms(arms, &mut |t| swap_leaf(t, n))),
+        | Ty::CoData(arms) => Ty::CoData(map_arms(arms, &mut |t| swap_leaf(t, n))),
+    }
+}
+
+fn leaves(t: &Ty) -> usize {
+    match t {
+        | Ty::Int | Ty::Str | Ty::Unit => 1,
+        | Ty::Var(_) => 0,
+        | Ty::Prod(a, c) | Ty::Arr(a, c) => leaves(a) + leaves(c),
+        | Ty::Thk(a) | Ty::Ret(a) | Ty::All(_, _, a) | Ty::Ex(_, _, a) => leaves(a),
+        | Ty::Data(arms) | Ty::CoData(arms) => arms.iter().map(|(_, t)| leaves(t)).sum(),
+    }
+}
+
+/// no variable occurs free (variables bound by binders inside the type do not count)
+fn closed(t: &Ty, bound: &mut Vec<u32>) -> bool {
+    match t {
+        | Ty::Int | Ty::Str | Ty::Unit => true,
+        | Ty::Var(x) => bound.contains(x),
+        | Ty::Prod(a, c) | Ty::Arr(a, c) => closed(a, bound) && closed(c, bound),
+        | Ty::Thk(a) | Ty::Ret(a) => closed(a, bound),
+        | Ty::All(_, x, a) | Ty::Ex(_, x, a) => {
+            bound.push(*x);
+            let r = closed(a, bound);
+            bound.pop();
+            r
+        }
+        | Ty::Data(arms) | Ty::CoData(arms) => arms.iter().all(|(_, t)| closed(t, bound)),
+    }
+}
+
+/// (data declarations, codata declarations) in a type
+fn count_decls(t: &Ty) -> (usize, usize) {
+    let add = |a: (usize, usize), b: (usize, usize)| (a.0 + b.0, a.1 + b.1);
+    match t {
+        | Ty::Int | Ty::Str | Ty::Unit | Ty::Var(_) => (0, 0),
+        | Ty::Prod(a, c) | Ty::Arr(a, c) => add(count_decls(a), count_decls(c)),
+        | Ty::Thk(a) | Ty::Ret(a) | Ty::All(_, _, a) | Ty::Ex(_, _, a) => count_decls(a),
+        | Ty::Data(arms) => arms.iter().fold((1, 0), |s, (_, t)| add(s, count_decls(t))),
+        | Ty::CoData(arms) => arms.iter().fold((0, 1), |s, (_, t)| add(s, count_decls(t))),
+    }
+}
+
+/// apply `f` to the arms of the `n`-th declaration (pre-order; `n < 0` on entry: to every one)
+fn edit_decl(t: &Ty, n: &mut isize, all: bool, f: &mut dyn FnMut(bool, &mut Vec<(u8, Ty)>)) -> Ty {
+    match t {
+        | Ty::Int | Ty::Str | Ty::Unit | Ty::Var(_) => t.clone(),
+        | Ty::Prod(a, c) => Ty::Prod(Box::new(edit_decl(a, n, all, f)), Box::new(edit_decl(c, n, all, f))),
+        | Ty::Arr(a, c) => Ty::Arr(Box::new(edit_decl(a, n, all, f)), Box::new(edit_decl(c, n, all, f))),
+        | Ty::Thk(a) => Ty::Thk(Box::new(edit_decl(a, n, all, f))),
+        | Ty::Ret(a) => Ty::Ret(Box::new(edit_decl(a, n, all, f))),
+        | Ty::All(k, x, a) => Ty::All(*k, *x, Box::new(edit_decl(a, n, all, f))),
+        | Ty::Ex(k, x, a) => Ty::Ex(*k, *x, Box::new(edit_decl(a, n, all, f))),
+        | Ty::Data(arms) | Ty::CoData(arms) => {
+            let is_data = matches!(t, Ty::Data(_));
+            *n -= 1;
+            let here = all || *n == -1;
+            let mut arms: Vec<(u8, Ty)> = arms.iter().map(|(name, t)| (*name, edit_decl(t, n, all, f))).collect();
+            if here {
+                f(is_data, &mut arms);
+            }
+            if is_data { Ty::Data(arms) } else { Ty::CoData(arms) }
+        }
     }
 }
 
@@ -170,6 +293,8 @@ enum Db {
     Two(u8, Box<Db>, Box<Db>),
     One(u8, Box<Db>),
     Bind(u8, u8, Box<Db>),
+    /// 0 data, 1 codata; arms sorted by name: the declaration order is not part of the type
+    Decl(u8, Vec<(u8, Db)>),
 }
 
 fn to_db(t: &Ty, env: &mut Vec<u32>) -> Db {
@@ -191,6 +316,25 @@ fn to_db(t: &Ty, env: &mut Vec<u32>) -> Db {
             env.pop();
             Db::Bind(if matches!(t, Ty::All(..)) { 0 } else { 1 }, *k, Box::new(b))
         }
+        | Ty::Data(arms) | Ty::CoData(arms) => {
+            let mut out: Vec<(u8, Db)> = arms.iter().map(|(n, t)| (*n, to_db(t, env))).collect();
+            out.sort_by_key(|(n, _)| *n);
+            Db::Decl(if matches!(t, Ty::Data(_)) { 0 } else { 1 }, out)
+        }
+    }
+}
+
+/// no declaration repeats a name (the model's `WF`)
+fn well_formed(t: &Ty) -> bool {
+    match t {
+        | Ty::Int | Ty::Str | Ty::Unit | Ty::Var(_) => true,
+        | Ty::Prod(a, c) | Ty::Arr(a, c) => well_formed(a) && well_formed(c),
+        | Ty::Thk(a) | Ty::Ret(a) | Ty::All(_, _, a) | Ty::Ex(_, _, a) => well_formed(a),
+        | Ty::Data(arms) | Ty::CoData(arms) => {
+            let mut names: Vec<u8> = arms.iter().map(|(n, _)| *n).collect();
+            names.sort();
+            names.windows(2).all(|w| w[0] != w[1]) && arms.iter().all(|(_, t)| well_formed(t))
+        }
     }
 }
 
@@ -207,6 +351,13 @@ fn encode(t: &Ty, out: &mut String) {
         | Ty::Ret(a) => { out.push_str("R "); encode(a, out) }
         | Ty::All(k, x, b) => { write!(out, "F {k} {x} ").unwrap(); encode(b, out) }
         | Ty::Ex(k, x, b) => { write!(out, "E {k} {x} ").unwrap(); encode(b, out) }
+        | Ty::Data(arms) | Ty::CoData(arms) => {
+            write!(out, "{} {} ", if matches!(t, Ty::Data(_)) { "D" } else { "C" }, arms.len()).unwrap();
+            for (name, t) in arms {
+                write!(out, "{name} ").unwrap();
+                encode(t, out);
+            }
+        }
     }
 }
 
@@ -214,19 +365,61 @@ fn name(x: u32) -> String {
     format!("Zt{x}")
 }
 
-fn show(t: &Ty) -> String {
-    match t {
-        | Ty::Var(x) => name(*x),
-        | Ty::Int => "Int64".into(),
-        | Ty::Str => "String".into(),
-        | Ty::Unit => "Unit".into(),
-        | Ty::Prod(a, c) => format!("({} * {})", show(a), show(c)),
-        | Ty::Arr(a, c) => format!("({} -> {})", show(a), show(c)),
-        | Ty::Thk(a) => format!("(Thk {})", show(a)),
-        | Ty::Ret(a) => format!("(Ret {})", show(a)),
-        | Ty::All(k, x, b) => format!("(forall ({} : {}) . {})", name(*x), if *k == 0 { "VType" } else { "CType" }, show(b)),
-        | Ty::Ex(k, x, b) => format!("(exists ({} : {}) . {})", name(*x), if *k == 0 { "VType" } else { "CType" }, show(b)),
+fn ctor(n: u8) -> String {
+    format!("+K{}", (b'a' + n) as char)
+}
+
+fn dtor(n: u8) -> String {
+    format!(".d{}", (b'a' + n) as char)
+}
+
+/// Surface text of a type.  With `hoist` a declaration that mentions no type variable is bound by
+/// a `let` alias in front of the program (`lets`, in dependency order) and referred to by name;
+/// every other declaration is written inline.
+struct Printer {
+    hoist: Option<&'static str>,
+    lets: Vec<String>,
+}
+
+impl Printer {
+    fn inline() -> Self {
+        Printer { hoist: None, lets: Vec::new() }
     }
+    fn show(&mut self, t: &Ty) -> String {
+        match t {
+            | Ty::Var(x) => name(*x),
+            | Ty::Int => "Int64".into(),
+            | Ty::Str => "String".into(),
+            | Ty::Unit => "Unit".into(),
+            | Ty::Prod(a, c) => format!("({} * {})", self.show(a), self.show(c)),
+            | Ty::Arr(a, c) => format!("({} -> {})", self.show(a), self.show(c)),
+            | Ty::Thk(a) => format!("(Thk {})", self.show(a)),
+            | Ty::Ret(a) => format!("(Ret {})", self.show(a)),
+            | Ty::All(k, x, b) => format!("(forall ({} : {}) . {})", name(*x), if *k == 0 { "VType" } else { "CType" }, self.show(b)),
+            | Ty::Ex(k, x, b) => format!("(exists ({} : {}) . {})", name(*x), if *k == 0 { "VType" } else { "CType" }, self.show(b)),
+            | Ty::Data(arms) | Ty::CoData(arms) => {
+                let is_data = matches!(t, Ty::Data(_));
+                let mut body = String::from(if is_data { "data" } else { "codata" });
+                for (n, t) in arms {
+                    let shown = self.show(t);
+                    body.push_str(&format!(" | {} : {}", if is_data { ctor(*n) } else { dtor(*n) }, shown));
+                }
+                body.push_str(" end");
+                match self.hoist {
+                    | Some(prefix) if closed(t, &mut Vec::new()) => {
+                        let alias = format!("{prefix}{}", self.lets.len());
+                        self.lets.push(format!("let {alias} = {body} in\n"));
+                        alias
+                    }
+                    | _ => format!("({body})"),
+                }
+            }
+        }
+    }
+}
+
+fn show(t: &Ty) -> String {
+    Printer::inline().show(t)
 }
 
 struct Case {
@@ -237,10 +430,11 @@ struct Case {
     program: String,
 }
 
-/// three places where the checker must compare `left` with `right` (both computation types)
-fn program(template: u8, left: &Ty, right: &Ty, free: &[u32]) -> String {
+/// three places where the checker must compare `left` with `right` (both computation types);
+/// `lets`: alias definitions the two texts refer to
+fn program(template: u8, lets: &str, l: &str, r: &str, free: &[u32]) -> String {
     let mut s = pipeline::prelude();
-    let (l, r) = (show(left), show(right));
+    s.push_str(lets);
     match template {
         // a thunk of one type returned where a thunk of the other is promised
         | 0 => s.push_str(&format!(
@@ -259,8 +453,6 @@ fn program(template: u8, left: &Ty, right: &Ty, free: &[u32]) -> String {
         // the function's own type parameter)
         | _ => {
             let a = free[0];
-            let Ty::All(0, x, body) = left else { unreachable!() };
-            let _ = (x, body);
             s.push_str(&format!(
                 "let P = {l} in\nlet g : Thk (Thk P -> Ret (Thk P)) = {{ fn (f : Thk P) => ret {{ fn ({} : VType) => let bad : Thk {r} = f in ! f {} }} }} in\n! (process/exit) 0\n",
                 name(a), name(a)
@@ -270,14 +462,75 @@ fn program(template: u8, left: &Ty, right: &Ty, free: &[u32]) -> String {
     s
 }
 
+/// the checker's verdict as an answer of the comparison: a missing name is reported by the
+/// structural arms of `lub_inner` as `unexpected data constructor` / `unexpected codata destructor`
+fn answer_of(verdict: &Verdict) -> String {
+    match verdict {
+        | Verdict::Accepted => "equal".to_string(),
+        | Verdict::Rejected(_) if verdict.class() == "reject:mismatch" => "different".to_string(),
+        | Verdict::Rejected(msgs) if msgs.first().is_some_and(|m| by_name(m)) => "different".to_string(),
+        | v => format!("unexpected:{}", v.class()),
+    }
+}
+
+fn by_name(msg: &str) -> bool {
+    let m = msg.trim_start();
+    m.starts_with("unexpected data constructor") || m.starts_with("unexpected codata destructor")
+}
+
+fn check_all(opts: &Opts, tag: &str, programs: Vec<String>) -> Vec<Verdict> {
+    let dir = opts.out.join(format!("lubsrc-{tag}"));
+    std::fs::create_dir_all(&dir).expect("lub dir");
+    let dir2 = dir.clone();
+    let results = par_map(programs, n_threads(), CompilerSession::default, move |session, text| {
+        let path = dir2.join(format!("l{:?}.zy", std::thread::current().id()).replace(['(', ')'], ""));
+        pipeline::analyze_text(session, &path, &text).verdict
+    });
+    let _ = std::fs::remove_dir_all(&dir);
+    results
+}
+
+fn request(left: &Ty, right: &Ty) -> String {
+    let mut req = String::from("lub ");
+    encode(left, &mut req);
+    req.push_str("| ");
+    encode(right, &mut req);
+    req.trim_end().to_string()
+}
+
+/// one variable occurrence now names another variable of the same kind in scope there, if any
+fn variable_swapped(rng: &mut Rng, left: &Ty, occ: &[(u32, Vec<u32>)]) -> Option<Ty> {
+    let candidates: Vec<usize> = occ.iter().enumerate().filter(|(_, (_, s))| !s.is_empty()).map(|(i, _)| i).collect();
+    if candidates.is_empty() {
+        return None;
+    }
+    let at = *rng.pick(&candidates);
+    let with = *rng.pick(&occ[at].1);
+    let mut n = at as isize;
+    Some(replace_occurrence(left, &mut n, with))
+}
+
 pub fn run(opts: &Opts, sink: &mut Sink, rng: &mut Rng) {
+    let t0 = std::time::Instant::now();
+    run_binders(opts, sink, rng);
+    let t1 = std::time::Instant::now();
+    let mut rng2 = rng.fork();
+    run_declarations(opts, sink, &mut rng2);
+    let t2 = std::time::Instant::now();
+    let mut rng3 = rng.fork();
+    run_repeated_names(opts, sink, &mut rng3);
+    eprintln!("lub: binders {:.1?}, declarations {:.1?}, repeated names {:.1?}", t1 - t0, t2 - t1, t2.elapsed());
+}
+
+/// stream 1: binders only
+fn run_binders(opts: &Opts, sink: &mut Sink, rng: &mut Rng) {
     let n = if opts.thorough() { 6000 } else { 600 };
     let mut cases: Vec<Case> = Vec::new();
     for i in 0..n {
         let template = (i % 3) as u8;
         let mut next = 10u32;
         let free: Vec<u32> = vec![1, 2];
-        let mut g = Gen { rng, next };
+        let mut g = Gen { rng, next, decl: false, budget: 0 };
         let mut ev: Vec<u32> = if template == 1 { free.clone() } else { vec![] };
         let mut ec: Vec<u32> = vec![];
         let depth = 2 + g.rng.below(3) as u32;
@@ -304,12 +557,7 @@ pub fn run(opts: &Opts, sink: &mut Sink, rng: &mut Rng) {
         let (relation, mutated): (&'static str, Ty) = match roll {
             | 0 => ("renamed", left.clone()),
             | 1 | 2 if occ.iter().any(|(_, same)| !same.is_empty()) => {
-                // one occurrence now names another variable of the same kind that is in scope there
-                let candidates: Vec<usize> = occ.iter().enumerate().filter(|(_, (_, s))| !s.is_empty()).map(|(i, _)| i).collect();
-                let at = *rng.pick(&candidates);
-                let with = *rng.pick(&occ[at].1);
-                let mut n = at as isize;
-                ("variable-swapped", replace_occurrence(&left, &mut n, with))
+                ("variable-swapped", variable_swapped(rng, &left, &occ).expect("a candidate exists"))
             }
             | _ => {
                 let mut n = rng.below(3) as isize;
@@ -317,26 +565,13 @@ pub fn run(opts: &Opts, sink: &mut Sink, rng: &mut Rng) {
             }
         };
         let right = rename(&mutated, &mut Vec::new(), &mut next);
-        let program = program(template, &left, &right, &free);
+        let program = program(template, "", &show(&left), &show(&right), &free);
         cases.push(Case { template, relation, left, right, program });
     }
-    let dir = opts.out.join("lubsrc");
-    std::fs::create_dir_all(&dir).expect("lub dir");
-    let jobs: Vec<(usize, String)> = cases.iter().enumerate().map(|(i, c)| (i, c.program.clone())).collect();
-    let dir2 = dir.clone();
-    let results = par_map(jobs, n_threads(), CompilerSession::default, move |session, (i, text)| {
-        let path = dir2.join(format!("l{:?}.zy", std::thread::current().id()).replace(['(', ')'], ""));
-        let analyzed = pipeline::analyze_text(session, &path, &text);
-        (i, analyzed.verdict)
-    });
-    for (i, verdict) in results {
-        let case = &cases[i];
+    let verdicts = check_all(opts, "binders", cases.iter().map(|c| c.program.clone()).collect());
+    for (case, verdict) in cases.iter().zip(verdicts) {
         let alpha = to_db(&case.left, &mut Vec::new()) == to_db(&case.right, &mut Vec::new());
-        let answer = match &verdict {
-            | Verdict::Accepted => "equal".to_string(),
-            | Verdict::Rejected(_) if verdict.class() == "reject:mismatch" => "different".to_string(),
-            | v => format!("unexpected:{}", v.class()),
-        };
+        let answer = answer_of(&verdict);
         sink.count(&format!("lub_t{}_{}_{}", case.template, case.relation, answer.split(':').next().unwrap_or("")));
         let want = if alpha { "equal" } else { "different" };
         let oracle = if answer == want {
@@ -349,11 +584,417 @@ pub fn run(opts: &Opts, sink: &mut Sink, rng: &mut Rng) {
             );
             format!("fail:alpha-equivalence-says-{want}")
         };
-        let mut req = String::from("lub ");
-        encode(&case.left, &mut req);
-        req.push_str("| ");
-        encode(&case.right, &mut req);
-        sink.case3(req.trim_end(), &answer, &oracle);
+        sink.case3(&request(&case.left, &case.right), &answer, &oracle);
     }
-    let _ = std::fs::remove_dir_all(&dir);
+}
+
+/// a permutation of `0..n` that is not the identity (`n >= 2`)
+fn shuffle(rng: &mut Rng, n: usize) -> Vec<usize> {
+    loop {
+        let mut p: Vec<usize> = (0..n).collect();
+        for i in (1..n).rev() {
+            let j = rng.below(i as u64 + 1) as usize;
+            p.swap(i, j);
+        }
+        if p.iter().enumerate().any(|(i, j)| i != *j) {
+            return p;
+        }
+    }
+}
+
+fn unused_name(rng: &mut Rng, arms: &[(u8, Ty)]) -> u8 {
+    let free: Vec<u8> = (0..POOL).filter(|n| arms.iter().all(|(m, _)| m != n)).collect();
+    *rng.pick(&free)
+}
+
+/// what the mutation must do to the type, when that is known by construction
+#[derive(Clone, Copy, PartialEq)]
+enum Expect {
+    Equal,
+    Different,
+    Either,
+}
+
+/// the mutations of declarations; `None` when the type offers no place for this one
+fn mutate_declarations(rng: &mut Rng, kind: u64, left: &Ty, occ: &[(u32, Vec<u32>)]) -> Option<(&'static str, Expect, Ty)> {
+    let (nd, nc) = count_decls(left);
+    let total = (nd + nc) as u64;
+    let one = |rng: &mut Rng, f: &mut dyn FnMut(&mut Rng, bool, &mut Vec<(u8, Ty)>)| {
+        let mut n = rng.below(total) as isize;
+        edit_decl(left, &mut n, false, &mut |is_data, arms| f(rng, is_data, arms))
+    };
+    let permute_all = |rng: &mut Rng, t: &Ty| {
+        let mut n = 0isize;
+        edit_decl(t, &mut n, true, &mut |_, arms| {
+            if arms.len() >= 2 {
+                let p = shuffle(rng, arms.len());
+                let old = arms.clone();
+                for (i, j) in p.iter().enumerate() {
+                    arms[i] = old[*j].clone();
+                }
+            }
+        })
+    };
+    let leaf_in_arm = |rng: &mut Rng, t: &Ty| -> Option<Ty> {
+        // the declarations that have a leaf somewhere in an arm
+        let mut with_leaf: Vec<isize> = Vec::new();
+        let mut index = -1isize;
+        // pre-order indices, numbered as `edit_decl` numbers them
+        fn walk(t: &Ty, index: &mut isize, out: &mut Vec<isize>) {
+            match t {
+                | Ty::Int | Ty::Str | Ty::Unit | Ty::Var(_) => {}
+                | Ty::Prod(a, c) | Ty::Arr(a, c) => {
+                    walk(a, index, out);
+                    walk(c, index, out);
+                }
+                | Ty::Thk(a) | Ty::Ret(a) | Ty::All(_, _, a) | Ty::Ex(_, _, a) => walk(a, index, out),
+                | Ty::Data(arms) | Ty::CoData(arms) => {
+                    *index += 1;
+                    if arms.iter().any(|(_, t)| leaves(t) > 0) {
+                        out.push(*index);
+                    }
+                    for (_, t) in arms {
+                        walk(t, index, out);
+                    }
+                }
+            }
+        }
+        walk(t, &mut index, &mut with_leaf);
+        if with_leaf.is_empty() {
+            return None;
+        }
+        let mut n = *rng.pick(&with_leaf);
+        Some(edit_decl(t, &mut n, false, &mut |_, arms| {
+            let candidates: Vec<usize> = (0..arms.len()).filter(|i| leaves(&arms[*i].1) > 0).collect();
+            let at = *rng.pick(&candidates);
+            let mut k = rng.below(leaves(&arms[at].1) as u64) as isize;
+            arms[at].1 = swap_leaf(&arms[at].1, &mut k);
+        }))
+    };
+    Some(match kind {
+        | 0 => ("renamed", Expect::Equal, left.clone()),
+        | 1 | 2 => ("arms-permuted", Expect::Equal, permute_all(rng, left)),
+        | 3 => (
+            "arm-types-exchanged",
+            Expect::Either,
+            one(rng, &mut |rng, _, arms| {
+                let i = rng.below(arms.len() as u64) as usize;
+                let j = (i + 1 + rng.below(arms.len() as u64 - 1) as usize) % arms.len();
+                let t = arms[i].1.clone();
+                arms[i].1 = arms[j].1.clone();
+                arms[j].1 = t;
+            }),
+        ),
+        | 4 => (
+            // the types stay where they are, two names change places: position by position the
+            // arm types still agree
+            "arm-names-exchanged",
+            Expect::Either,
+            one(rng, &mut |rng, _, arms| {
+                let i = rng.below(arms.len() as u64) as usize;
+                let j = (i + 1 + rng.below(arms.len() as u64 - 1) as usize) % arms.len();
+                let n = arms[i].0;
+                arms[i].0 = arms[j].0;
+                arms[j].0 = n;
+            }),
+        ),
+        | 5 => (
+            "name-replaced",
+            Expect::Different,
+            one(rng, &mut |rng, _, arms| {
+                let i = rng.below(arms.len() as u64) as usize;
+                arms[i].0 = unused_name(rng, arms);
+            }),
+        ),
+        | 6 => (
+            "arm-dropped",
+            Expect::Different,
+            one(rng, &mut |rng, _, arms| {
+                let i = rng.below(arms.len() as u64) as usize;
+                arms.remove(i);
+            }),
+        ),
+        | 7 => (
+            "arm-added",
+            Expect::Different,
+            one(rng, &mut |rng, _, arms| {
+                let from = rng.below(arms.len() as u64) as usize;
+                let at = rng.below(arms.len() as u64 + 1) as usize;
+                let arm = (unused_name(rng, arms), arms[from].1.clone());
+                arms.insert(at, arm);
+            }),
+        ),
+        | 8 => ("arm-leaf-changed", Expect::Different, leaf_in_arm(rng, left)?),
+        | 9 => {
+            let changed = leaf_in_arm(rng, left)?;
+            ("arms-permuted-and-leaf-changed", Expect::Different, permute_all(rng, &changed))
+        }
+        | _ => ("variable-swapped", Expect::Either, variable_swapped(rng, left, occ)?),
+    })
+}
+
+/// stream 2: declarations inside the compared types
+fn run_declarations(opts: &Opts, sink: &mut Sink, rng: &mut Rng) {
+    let n = if opts.thorough() { 30_000 } else { 3000 };
+    let mut cases: Vec<Case> = Vec::new();
+    let mut spellings: Vec<(bool, usize)> = Vec::new();
+    for i in 0..n {
+        let template = (i % 3) as u8;
+        let want_data = (i / 3) % 2 == 0;
+        let alias = (i / 6) % 2 == 1;
+        let free: Vec<u32> = vec![1, 2];
+        let mut next;
+        // a type with at least one declaration of the wanted sort
+        let mut tries = 0;
+        let left = loop {
+            tries += 1;
+            let mut g = Gen { rng: &mut *rng, next: 10, decl: true, budget: 4 };
+            let mut ev: Vec<u32> = if template == 1 { free.clone() } else { vec![] };
+            let mut ec: Vec<u32> = vec![];
+            let depth = 2 + g.rng.below(3) as u32;
+            let mut t = if template == 2 {
+                let x = g.fresh();
+                ev.push(x);
+                let body = g.cty(depth, &mut ev, &mut ec);
+                ev.pop();
+                Ty::All(0, x, Box::new(body))
+            } else {
+                g.cty(depth + 1, &mut ev, &mut ec)
+            };
+            let (nd, nc) = count_decls(&t);
+            let found = if want_data { nd > 0 } else { nc > 0 };
+            if !found && tries >= 40 {
+                // put one in front: `data -> T` / a codata declaration with `T` as one result
+                let mut ev: Vec<u32> = if template == 1 { free.clone() } else { vec![] };
+                g.budget = 1;
+                let wrap = |g: &mut Gen, inner: Ty, ev: &mut Vec<u32>| {
+                    if want_data {
+                        Ty::Arr(Box::new(g.data(1, ev, &mut vec![])), Box::new(inner))
+                    } else {
+                        let Ty::CoData(mut arms) = g.codata(1, ev, &mut vec![]) else { unreachable!() };
+                        arms[0].1 = inner;
+                        Ty::CoData(arms)
+                    }
+                };
+                t = match t {
+                    | Ty::All(0, x, body) if template == 2 => {
+                        ev.push(x);
+                        let inner = wrap(&mut g, *body, &mut ev);
+                        Ty::All(0, x, Box::new(inner))
+                    }
+                    | t => wrap(&mut g, t, &mut ev),
+                };
+                sink.count("lub_decl_forced");
+            }
+            let (nd, nc) = count_decls(&t);
+            if if want_data { nd > 0 } else { nc > 0 } {
+                next = g.next;
+                break t;
+            }
+        };
+        let (nd, nc) = count_decls(&left);
+        sink.add("lub_decl_data_declarations", nd as u64);
+        sink.add("lub_decl_codata_declarations", nc as u64);
+        let mut occ = Vec::new();
+        let kind_of = |x: u32, scope: &[(u8, u32)]| scope.iter().rev().find(|(_, y)| *y == x).map(|(k, _)| *k).or(Some(0));
+        let mut scope: Vec<(u8, u32)> = if template >= 1 { free.iter().map(|a| (0u8, *a)).collect() } else { vec![] };
+        if template == 2 {
+            scope.truncate(1);
+        }
+        occurrences(&left, &mut scope, &kind_of, &mut occ);
+        let (relation, expect, mutated) = loop {
+            let kind = rng.below(11);
+            if let Some(m) = mutate_declarations(rng, kind, &left, &occ) {
+                break m;
+            }
+        };
+        let right = rename(&mutated, &mut Vec::new(), &mut next);
+        // the generator's own claims about its mutations
+        let alpha = to_db(&left, &mut Vec::new()) == to_db(&right, &mut Vec::new());
+        if (expect == Expect::Equal && !alpha) || (expect == Expect::Different && alpha) || !well_formed(&left) || !well_formed(&right) {
+            sink.violation(
+                "harness-lub-generator-inconsistent",
+                serde_json::json!({"relation": relation, "alpha_equivalent": alpha, "left": show(&left), "right": show(&right)}),
+            );
+        }
+        let mut pl = Printer { hoist: alias.then_some("Lz"), lets: Vec::new() };
+        let l = pl.show(&left);
+        let mut pr = Printer { hoist: alias.then_some("Rz"), lets: Vec::new() };
+        let r = pr.show(&right);
+        let hoisted = pl.lets.len() + pr.lets.len();
+        let lets: String = pl.lets.concat() + &pr.lets.concat();
+        let program = program(template, &lets, &l, &r, &free);
+        spellings.push((alias, hoisted));
+        cases.push(Case { template, relation, left, right, program });
+    }
+    let verdicts = check_all(opts, "decl", cases.iter().map(|c| c.program.clone()).collect());
+    for ((case, verdict), (alias, hoisted)) in cases.iter().zip(verdicts).zip(spellings) {
+        let alpha = to_db(&case.left, &mut Vec::new()) == to_db(&case.right, &mut Vec::new());
+        let answer = answer_of(&verdict);
+        let short = answer.split(':').next().unwrap_or("");
+        sink.count(&format!("lub_decl_{}_{}", case.relation, short));
+        sink.count(&format!("lub_decl_t{}_{}", case.template, short));
+        sink.count(if alias { "lub_decl_spelling_alias" } else { "lub_decl_spelling_inline" });
+        sink.add("lub_decl_aliases_hoisted", hoisted as u64);
+        if let Verdict::Rejected(msgs) = &verdict {
+            if let Some(m) = msgs.first().filter(|m| by_name(m)) {
+                // only the structural arms of `lub_inner` report these
+                let sort = if m.contains("codata") { "codata" } else { "data" };
+                sink.count(&format!("lub_decl_t{}_{}_{sort}_name_missing", case.template, if alias && hoisted > 0 { "alias" } else { "inline" }));
+            }
+        }
+        let want = if alpha { "equal" } else { "different" };
+        let oracle = if answer == want {
+            "ok".to_string()
+        } else {
+            sink.violation(
+                "c03-type-equality-is-not-alpha-equivalence",
+                serde_json::json!({"stream": "declarations", "template": case.template, "relation": case.relation,
+                    "alpha_equivalent_up_to_arm_order": alpha, "checker": answer,
+                    "left": show(&case.left), "right": show(&case.right), "program": case.program}),
+            );
+            format!("fail:alpha-equivalence-says-{want}")
+        };
+        sink.case3(&request(&case.left, &case.right), &answer, &oracle);
+    }
+}
+
+/// stream 3: declarations that repeat a name.  `lang/statics` accepts them and keeps both arms;
+/// `Data::get` finds the first.  The mirror is compared line by line as everywhere; what is asked
+/// of the checker is only what any equality must satisfy: a type equals itself, and the verdict does
+/// not depend on the side a type stands on.  A checker that refuses the declaration outright (any
+/// other error class) satisfies this trivially; such cases are recorded, not compared.
+fn run_repeated_names(opts: &Opts, sink: &mut Sink, rng: &mut Rng) {
+    let n = if opts.thorough() { 240 } else { 48 };
+    struct Rep {
+        template: u8,
+        role: &'static str,
+        group: usize,
+        left: Ty,
+        right: Ty,
+        program: String,
+    }
+    let mut cases: Vec<Rep> = Vec::new();
+    for i in 0..n {
+        let template = (i % 3) as u8;
+        let is_data = (i / 3) % 2 == 0;
+        let free: Vec<u32> = vec![1, 2];
+        let mut g = Gen { rng: &mut *rng, next: 10, decl: false, budget: 0 };
+        let mut ev: Vec<u32> = if template == 1 { free.clone() } else { vec![] };
+        let x = g.fresh();
+        if template == 2 {
+            ev.push(x);
+        }
+        let arity = 2 + g.rng.below(2) as usize;
+        let names = g.names(arity);
+        let mut arms: Vec<(u8, Ty)> = Vec::new();
+        for name in names {
+            let t = if is_data { g.vty(1, &mut ev, &mut vec![]) } else { g.cty(1, &mut ev, &mut vec![]) };
+            arms.push((name, t));
+        }
+        let mut next = g.next;
+        // the repeated name: arm `j` takes the name of arm `i`
+        let a = rng.below(arity as u64) as usize;
+        let b = (a + 1 + rng.below(arity as u64 - 1) as usize) % arity;
+        let mut repeated = arms.clone();
+        repeated[b].0 = repeated[a].0;
+        if rng.chance(1, 3) {
+            repeated[b].1 = repeated[a].1.clone();
+        }
+        let close = |arms: Vec<(u8, Ty)>| {
+            let decl = if is_data { Ty::Arr(Box::new(Ty::Data(arms)), Box::new(Ty::Ret(Box::new(Ty::Int)))) } else { Ty::CoData(arms) };
+            if template == 2 { Ty::All(0, x, Box::new(decl)) } else { decl }
+        };
+        let (plain, rep) = (close(arms), close(repeated));
+        for (role, l, r) in [("self", &rep, &rep), ("repeated-left", &rep, &plain), ("repeated-right", &plain, &rep)] {
+            let right = rename(r, &mut Vec::new(), &mut next);
+            let program = program(template, "", &show(l), &show(&right), &free);
+            cases.push(Rep { template, role, group: i, left: l.clone(), right, program });
+        }
+    }
+    let verdicts = check_all(opts, "repeated", cases.iter().map(|c| c.program.clone()).collect());
+    let mut answers: Vec<String> = Vec::new();
+    for (case, verdict) in cases.iter().zip(&verdicts) {
+        let answer = answer_of(verdict);
+        sink.count(&format!("lub_repeated_name_{}_{}", case.role, answer.split(':').next().unwrap_or("")));
+        if answer.starts_with("unexpected") {
+            // the declaration itself was refused (or something else happened): nothing to compare
+            sink.case(&format!("# lub-repeated-name t{} {} {}", case.template, case.role, request(&case.left, &case.right)), &answer);
+        } else {
+            sink.case3(&request(&case.left, &case.right), &answer, "not-wf");
+        }
+        answers.push(answer);
+    }
+    let (mut not_reflexive, mut not_symmetric) = (0u64, 0u64);
+    for (i, case) in cases.iter().enumerate() {
+        match case.role {
+            | "self" if answers[i] == "different" => {
+                not_reflexive += 1;
+                if not_reflexive == 1 {
+                    sink.violation(
+                        "c03-type-is-not-equal-to-itself",
+                        serde_json::json!({"template": case.template, "type": show(&case.left), "checker": answers[i],
+                            "note": "a declaration that repeats a name is accepted; its second arm of that name is compared with the first", "program": case.program}),
+                    );
+                }
+            }
+            | "repeated-left" => {
+                let other = &cases[i + 1];
+                assert!(other.role == "repeated-right" && other.group == case.group);
+                let both = [&answers[i], &answers[i + 1]];
+                if both.iter().all(|a| !a.starts_with("unexpected")) && both[0] != both[1] {
+                    not_symmetric += 1;
+                    if not_symmetric == 1 {
+                        sink.violation(
+                            "c03-type-equality-depends-on-the-side",
+                            serde_json::json!({"template": case.template, "left": show(&case.left), "right": show(&case.right),
+                                "left_vs_right": both[0], "right_vs_left": both[1], "program": case.program, "program_swapped": other.program}),
+                        );
+                    }
+                }
+            }
+            | _ => {}
+        }
+    }
+    sink.add("lub_repeated_name_not_reflexive", not_reflexive);
+    sink.add("lub_repeated_name_not_symmetric", not_symmetric);
+    // what the asymmetry costs: a function on the declaration with the repeated name is passed where
+    // a function on a declaration with a further constructor is expected, and then meets that
+    // constructor; dually for a computation that answers one destructor only
+    let stuck = [
+        (
+            "data",
+            "let f : Thk ((data | +Ka : Int64 | +Ka : Int64 end) -> Ret Int64) = { fn d => match d | +Ka(x) => ret x end } in\n\
+             let use : Thk (Thk ((data | +Ka : Int64 | +Kb : Int64 end) -> Ret Int64) -> Ret Int64) = { fn (g : Thk ((data | +Ka : Int64 | +Kb : Int64 end) -> Ret Int64)) => ! g +Kb(5) } in\n\
+             do r <- ! use f;\n! (process/exit) r\n",
+        ),
+        (
+            "codata",
+            "let c : Thk (codata | .da : Ret Int64 | .da : Ret Int64 end) = { comatch | .da => ret 1 end } in\n\
+             let use : Thk (Thk (codata | .da : Ret Int64 | .db : Ret Int64 end) -> Ret Int64) = { fn (g : Thk (codata | .da : Ret Int64 | .db : Ret Int64 end)) => ! g .db } in\n\
+             do r <- ! use c;\n! (process/exit) r\n",
+        ),
+    ];
+    let mut session = CompilerSession::default();
+    for (sort, body) in stuck {
+        let text = pipeline::prelude() + body;
+        let path = opts.out.join("lub-repeated-name-run.zy");
+        let analyzed = pipeline::analyze_text(&mut session, &path, &text);
+        let end = match (&analyzed.verdict, &analyzed.analysis) {
+            | (Verdict::Accepted, Some(a)) => {
+                let r = pipeline::run(&session, a, b"", &[], 100_000);
+                if let pipeline::RunEnd::Panic { msg, loc } = &r.end {
+                    sink.violation(
+                        "c01-accepted-program-gets-stuck",
+                        serde_json::json!({"sort": sort, "panic": msg, "location": loc, "program": text,
+                            "note": "the declaration with the repeated name is accepted and found equal to the declaration with a further name"}),
+                    );
+                }
+                pipeline::end_str(&r.end)
+            }
+            | (v, _) => v.class(),
+        };
+        sink.count(&format!("lub_repeated_name_run_{sort}_{}", end.split([':', '@']).next().unwrap_or("")));
+        sink.case(&format!("# lub-repeated-name-run {sort}"), &end);
+    }
 }
